@@ -2,7 +2,5 @@ SPECIFICATION TraceSpec
 CONSTANTS
   MaxErr = 0
 CONSTRAINT Progress
-INVARIANT Bounded
-INVARIANT Settled
 POSTCONDITION Accepted
 CHECK_DEADLOCK FALSE
